@@ -276,7 +276,7 @@ func GenPKG(w *World, maxEdits int, opts ...string) *Scenario {
 		}
 		return false
 	}
-	noErrorLoops, hostile, finalDelete := has("no-error-loops"), has("hostile"), has("final-delete")
+	noErrorLoops, hostile, finalDelete, sliceHeavy := has("no-error-loops"), has("hostile"), has("final-delete"), has("slice-heavy")
 	s := w.Scn
 	sc := &Scenario{Family: "S-PKG", Facts: map[string]any{}}
 	reg := &Registry{w: w, Images: map[string]*PkgImage{}}
@@ -303,6 +303,10 @@ func GenPKG(w *World, maxEdits int, opts ...string) *Scenario {
 		if hostile && s.Chance(2, 3, "hostile-class") {
 			class = hostileClasses[s.Intn(len(hostileClasses), "hostile-class-idx")]
 		}
+		if sliceHeavy {
+			// admissible images only: every edit produces a new, sliced revision
+			class = []string{"valid", "valid", "multi", "needs-config", "big"}[s.Intn(5, "slice-heavy-class")]
+		}
 		if i == 0 {
 			class = "valid"
 		}
@@ -316,7 +320,7 @@ func GenPKG(w *World, maxEdits int, opts ...string) *Scenario {
 		sc.Desc = append(sc.Desc, fmt.Sprintf("image %s: %s", ref, class))
 	}
 	configs := []map[string]any{nil, {"color": "red"}, {"color": "blue"}, {"color": int64(5)}}
-	if noErrorLoops {
+	if noErrorLoops || sliceHeavy {
 		configs = []map[string]any{{"color": "green"}, {"color": "red"}, {"color": "blue"}}
 	}
 	mkSpec := func() map[string]any {
@@ -342,7 +346,11 @@ func GenPKG(w *World, maxEdits int, opts ...string) *Scenario {
 		if !g.Cluster {
 			store.Meta(o)["namespace"] = ns
 		}
-		switch s.Intn(4, "chunking") {
+		chunking := s.Intn(4, "chunking")
+		if sliceHeavy && s.Chance(2, 3, "each-object") {
+			chunking = 1
+		}
+		switch chunking {
 		case 1:
 			setAnnotation(o, "packages.package-operator.run/chunking-strategy", "EachObject")
 		case 2:
